@@ -890,6 +890,32 @@ def matmul_rank_grid(rng):
                 return spec_of(d, f, ca)
 
             out.append({"op": "matmul" if rng.random() < 0.7 else "@", "a": sp(da, fa), "b": sp(db, fb)})
+        # a batch axis of length 0 in one operand against length 1 (or absent) in the other: the broadcast batch extent is 0
+        if max(ra, rb) >= 3 and min(ra, rb) >= 2:
+            for zero_in in ("a", "b"):
+                k, m, n = 4, 2, 5
+                nba, nbb = max(ra - 2, 0), max(rb - 2, 0)
+                ba = tuple(int(v) for v in rng.choice([1, 2, 3], size=nba))
+                bb = tuple((1 if rng.random() < 0.5 else e) for e in ba[len(ba) - nbb:]) if nbb <= nba else tuple(int(v) for v in rng.choice([1, 2], size=nbb - nba)) + tuple(ba)
+                ba, bb = list(ba), list(bb)
+                # put the 0 on the last batch axis of one side and a 1 on the other side's matching axis (if it has one)
+                if zero_in == "a" and ba:
+                    ba[-1] = 0
+                    if bb:
+                        bb[-1] = 1
+                elif zero_in == "b" and bb:
+                    bb[-1] = 0
+                    if ba:
+                        ba[-1] = 1
+                else:
+                    continue
+                sa, sb = tuple(ba) + (m, k), tuple(bb) + (k, n)
+                fa, fb = str(rng.choice(RANK_FMTS)), str(rng.choice(RANK_FMTS))
+                if fa == "nd" and fb == "nd":
+                    fa = "coo"
+                da, db = small_dense(rng, sa, density=0.8), small_dense(rng, sb, density=0.8)
+                out.append({"op": "matmul" if rng.random() < 0.7 else "@", "a": spec_of(da, fa, gen.compressed_axes_choices(da.ndim)[0] if fa == "gcxs" and da.ndim >= 2 else None),
+                            "b": spec_of(db, fb, gen.compressed_axes_choices(db.ndim)[0] if fb == "gcxs" and db.ndim >= 2 else None)})
     return out
 
 
